@@ -653,7 +653,12 @@ def assemble(unit, workdir, vacuity_twins=False):
         if hdr and ex["opts"].get("impl_as"):
             # impl_as=TYPE: the method is emitted into `impl TYPE` - a stand-in of the real type declared in the unit (used when the
             # prelude already holds an abstract stand-in of the same type whose methods are the ones extracted here)
-            hdr = re.sub(r"^impl(\s*<[^>]*>)?\s+[A-Za-z_][A-Za-z0-9_:]*", lambda m: "impl" + (m.group(1) or "") + " " + ex["opts"]["impl_as"], hdr, count=1)
+            if re.search(r"\sfor\s", hdr):
+                # a trait impl: its methods become inherent methods of the stand-in (one impl block per extracted method is emitted,
+                # which a trait impl cannot be split into); the trait's signatures are what the real impl has to match anyway (rustc)
+                hdr = "impl " + ex["opts"]["impl_as"]
+            else:
+                hdr = re.sub(r"^impl(\s*<[^>]*>)?\s+[A-Za-z_][A-Za-z0-9_:]*", lambda m: "impl" + (m.group(1) or "") + " " + ex["opts"]["impl_as"], hdr, count=1)
         if hdr:
             emit(hdr + " {")
             if item.get("impl_assoc"):
